@@ -88,6 +88,10 @@ def tokenize(source):
         toks.append(word)
         p = q
         if word in (".\"", "s\""):
+            if p < n and source[p] == "\n":
+                # CHOICE: a newline directly after the word does not start a string (the newline token follows
+                # the word, line 1634, so the test of line 1653 fails); only seen inside comments here
+                continue
             # exactly one separator character is consumed with the word, then leading whitespace is skipped
             if p < n:
                 p += 1
@@ -473,6 +477,9 @@ class RefMachine(object):
         self.budget = self.budget0
         self.last_tag = "begin"
         self.hazard_at = None
+        self.evlog = []        # every executed event, also those that leave the state unchanged:
+        #                        (tag, stack top before, loop increments so far, exits so far, index of the trace
+        #                        entry that was current when the event started)
         self.exits = 0         # executed 'exit' words so far (recorded in the trace)
         self.marks = set()     # noteworthy events of this execution, for reports (e.g. "exit-under-do")
         if self.p.nested:
@@ -672,6 +679,8 @@ class RefMachine(object):
             if fr.defname == "iter":
                 self.loop_incs += 1
                 self.last_tag = "+loop" if fr.b else "loop"
+                self.pre = tuple(self.stack[-3:])
+                self.evlog.append((self.last_tag, self.pre, self.loop_incs, self.exits, len(self.trace) - 1))
                 if fr.b:
                     # '+loop' pops its step (line 3807)
                     step = self.pop()
@@ -695,6 +704,8 @@ class RefMachine(object):
         if k == "untilctl":
             if fr.defname == "iter":
                 self.last_tag = "until"
+                self.pre = tuple(self.stack[-3:])
+                self.evlog.append((self.last_tag, self.pre, self.loop_incs, self.exits, len(self.trace) - 1))
                 flag = self.pop()
                 self.note("until")
                 if flag != 0:
@@ -707,6 +718,8 @@ class RefMachine(object):
             # phases: None -> run pre; "pre" -> test, run post; "post" -> run pre
             if fr.defname == "pre":
                 self.last_tag = "while"
+                self.pre = tuple(self.stack[-3:])
+                self.evlog.append((self.last_tag, self.pre, self.loop_incs, self.exits, len(self.trace) - 1))
                 flag = self.pop()
                 self.note("while")
                 if flag == 0:
@@ -726,6 +739,7 @@ class RefMachine(object):
         self.pre = tuple(st[-3:])
         self.last_tag = node[1] if op == "w" else ("read:" + ("#" if node[2][0] else "") + ("!" if node[2][1] else "")
                                                    + node[2][2] if op == "read" else op)
+        self.evlog.append((self.last_tag, self.pre, self.loop_incs, self.exits, len(self.trace) - 1))
         if op == "lit":
             self.push(node[1])
             self.note("lit")
